@@ -16,7 +16,8 @@ from fractions import Fraction
 from vlib import Check, RunnerPool, compile_job, driver, log, hexs, unhex
 
 PRELUDE = ('@use "sass:list";\n@use "sass:map";\n@use "sass:string";\n'
-           '@function a($args...) { @return $args; }\n')
+           '@function a($args...) { @return $args; }\n'
+           '@function ismap($v) { @return type-of($v) == map or (type-of($v) == list and length($v) == 0); }\n')
 
 # ----------------------------------------------------------------------------------------------
 # value trees
@@ -858,6 +859,10 @@ def gen_call(g, f):
         args = args + [g.atom()]
     elif y < 0.09 and args:
         args = [r.choice([num(1), ustr('a'), lst([num(1), num(2)]), TRUE])] + args[1:]
+    elif y < 0.10 and args:
+        args = ([r.choice([num(1), ustr('a'), lst([num(1), num(2)]), TRUE])] + args[1:])[:r.randint(1, len(args))]
+    elif y < 0.11 and len(args) > 1:
+        args = args[:r.randint(1, len(args) - 1)]
     return (f, [sanitize_str(a) for a in args])
 
 
@@ -935,6 +940,25 @@ CORPUS = [
     ('split', [qstr('a,b,c'), qstr(','), num(1, 'px')]),
     ('split', [qstr('a,b,c'), qstr(','), num(0)]),
     ('split', [qstr('abc'), qstr('x')]),
+    # the first argument is checked before a later one is found missing
+    ('deep-merge', [ustr('foo')]),
+    ('deep-merge', [('map', [(ustr('a'), num(1))])]),
+    ('deep-remove', [ustr('foo')]),
+    ('deep-remove', [('map', [(ustr('a'), num(1))])]),
+    ('str-index', [num(1)]),
+    ('str-index', [qstr('a')]),
+    ('str-insert', [num(1)]),
+    ('str-insert', [qstr('a'), num(1)]),
+    ('str-insert', [qstr('a'), qstr('b')]),
+    ('split', [num(1)]),
+    ('split', [qstr('a')]),
+    ('str-slice', [num(1)]),
+    ('map-get', [num(1)]),
+    ('map-merge', [num(1)]),
+    ('nth', [num(1)]),
+    ('set-nth', [lst([num(1), num(2)]), ustr('a')]),
+    ('set-nth', [lst([num(1), num(2)]), num(5)]),
+    ('set-nth', [lst([num(1), num(2)]), num(1)]),
 ]
 
 
@@ -1121,6 +1145,11 @@ def evaluate(ck, pool, cases, direct_only=False):
             per = [g] * (1 if f in MODULE_ONLY else 2)
         ck.count(('c14', f, [enc(a) for a in args]), nontrivial=bool(args))
         ck.hist("fn:" + f)
+        if args:
+            a0 = args[0]
+            ck.hist("arg0:" + (f"list/{a0[2]}/{'br' if a0[3] else 'plain'}/len={len(a0[1])}" if a0[0] == 'list'
+                               else f"str/len={len(a0[1])}" if a0[0] == 'str' else a0[0]))
+        ck.hist(f"arity={len(args)}")
         ck.hist("model:" + (m[0] if m[0] == 'ok' else 'err:' + m[1]))
         if len(ck.cov["samples"]) < 8 and i % 211 == 0:
             ck.sample({"call": text, "model": now, "impl": [list(p[:2]) for p in per]})
@@ -1324,7 +1353,7 @@ def gen_law(g):
                 ps.append((kk, vv))
         b = ('map', [(kk, num(7) if vv == ('map', []) else vv) for kk, vv in ps])
         ga, gb = f"map-get({S(a)}, {S(k)})", f"map-get({S(b)}, {S(k)})"
-        sub = f"if(type-of({ga}) == map and type-of({gb}) == map, map.deep-merge(if(type-of({ga}) == map, {ga}, (z: 1)), if(type-of({gb}) == map, {gb}, (z: 1))), null)"
+        sub = f"if(ismap({ga}) and ismap({gb}), map.deep-merge(if(ismap({ga}), {ga}, ()), if(ismap({gb}), {gb}, ())), null)"
         ex = [f"map-has-key({S(b)}, {S(k)})", ga, gb, sub, f"map-get(map.deep-merge({S(a)}, {S(b)}), {S(k)})"]
         return name, ex, lambda vs: "blt law deep_merge_get 5 " + " ".join(map(enc, vs)), None
     raise ValueError(name)
@@ -1409,6 +1438,10 @@ def run(tier, seed):
     for f in failing:
         if ck.impl_violation(f["call"], f, tags=f["tags"]):
             reported += 1
+    from vlib import known_findings
+    for k in known_findings("C14"):
+        if k["id"] not in [x["id"] for x in ck.known_seen]:
+            ck.notes.append(f"known finding {k['id']} was not reproduced on this run (entry may be stale)")
     if ck.cov["model_disagreements"] and not reported:
         ck.unproved("correspondence-broken", {"correspondence": "blt call 1 (as-found model Grass.Builtins) vs grass",
                                               "cases": ck.disagreements})
